@@ -416,7 +416,13 @@ func (u *UnaryExpression) SQL() string {
 			// "NOT EXISTS (...)" is parsed into its own node shape; keep this one distinct
 			return "NOT (" + exprSQL(u.Expr) + ")"
 		}
-		return "NOT " + operandSQL(u.Expr, precNot)
+		operand := operandSQL(u.Expr, precNot)
+		if len(operand) >= 6 && strings.EqualFold(operand[:6], "EXISTS") {
+			// NOT followed by EXISTS is read as the NOT EXISTS predicate, which would
+			// capture only the EXISTS (...) part of "EXISTS (...) = x"
+			return "NOT (" + operand + ")"
+		}
+		return "NOT " + operand
 	case PGPostfixFactorial:
 		return operandSQL(u.Expr, precPrimary) + "!"
 	case Plus:
